@@ -491,6 +491,8 @@ def _o7_tail(W, ob, a):
                  'present=%s' % (desc, asserted), where(a, t.line))
 
 
+from . import helpers
+
 OBLIGATIONS = [
     ('C01.O1', 'rollback before simulate', 'In advance_rollback_frame every path to the new-frame input fetch passes a '
      'call that must-call check_simulation_consistency and the local input registration; adjust_gamestate runs exactly '
@@ -515,4 +517,5 @@ OBLIGATIONS = [
      'first input).', o6),
     ('C01.O7', 'earliest wrong frame', 'check_simulation_consistency is a NULL-aware min-reduction over the pending '
      'disconnect frame and every queue marker; adjust_gamestate loads that frame (sparse: last saved <= it).', o7),
+    ('C01.H', 'helpers the rules above rely on', 'the bodies of the helpers named by this property\'s rules compute what the rules assume (last_recv_frame, confirmed_input, player_input); see rules/helpers.py', helpers.bundle('last_recv_frame', 'confirmed_input', 'player_input')),
 ]
